@@ -257,7 +257,13 @@ def _worker_path(args):
         out['feas'] = ex.ch.feas_checks
         import zlib
         keep_canary = zlib.crc32(repr(prefix).encode()) % 6 == 0 or len(prefix) <= 4
-        obls = ex.obligations + (res.canaries if keep_canary else [])
+        pid = _W.get('pid')
+        mine = ex.obligations
+        if pid:
+            import re as _re
+            # only the clauses of the property being checked (and the untagged structural ones) are discharged
+            mine = [o for o in ex.obligations if pid in o.tags or not any(_re.fullmatch(r'C\d\d', t) for t in o.tags)]
+        obls = mine + (res.canaries if keep_canary else [])
         smt._OBLS, smt._AXIOMS, smt._TIMEOUT_MS = obls, axioms + smt.literal_axioms(), timeout_ms
         for i, ob in enumerate(obls):
             _, verdict, model, t, solver, reason = smt._check_one(i)
@@ -280,12 +286,12 @@ class Rec:
         self.tags = tuple(d.get('tags', ()))
 
 
-def verify_many(spec: Spec, keys, axioms, timeout_ms=10000, procs=16) -> list:
+def verify_many(spec: Spec, keys, axioms, timeout_ms=10000, procs=16, pid=None) -> list:
     """Verify several functions at once: every path of every function is a task of one fork pool."""
     import multiprocessing
     results = {}
     t0 = time.time()
-    _W.update(spec=spec, axioms=axioms, timeout_ms=timeout_ms)
+    _W.update(spec=spec, axioms=axioms, timeout_ms=timeout_ms, pid=pid)
     todo = []
     for key in keys:
         C = spec.functions[key]
